@@ -154,8 +154,8 @@ func body(r *vf.Run) {
 	}
 	var wg sync.WaitGroup
 	wg.Add(2)
-	go func() { defer wg.Done(); stage("plain", false, r.N(100, 1500), r.N(100, 300), nil) }()
-	go func() { defer wg.Done(); stage("race", true, r.N(24, 200), r.N(24, 100), []string{"fs/remote."}) }()
+	go func() { defer wg.Done(); stage("plain", false, r.N(100, 1200), r.N(100, 300), nil) }()
+	go func() { defer wg.Done(); stage("race", true, r.N(24, 300), r.N(24, 100), []string{"fs/remote."}) }()
 	wg.Wait()
 	r.Assume("memreg answers honest personalities correctly (bytes of the registered blob, correct Content-Range); the blob bytes are gen.FillContent(id, 0, .) (self-test at start)")
 	r.Assume("reccache forwards to the real cache unchanged except for the injected faults it logs; std mime/multipart is used to permute parts")
